@@ -305,7 +305,7 @@ pub fn prop() -> Prop<Case> {
     Prop {
         id: "C12",
         level: "exploration",
-        rule: "enumeration: is_prefix_of vs byte-wise whole-component containment on every ordered pair of the depth<=3 universe over {a, a., a-, 'a b', b, é, .x, ~, éa, 日, ab}; generated: (options, tree with multi-byte and mutually-extending sibling names) backed up, then for S = every entry plus generated absent paths: listing(S) == full listing filtered by containment (entry-for-entry), and for S = every directory: restore(S) creates exactly the paths under S (+ bare ancestors) with attributes identical to the full restore; in 40% of cases a second backup after generated edits is interrupted and the listing relation is also checked on the stitched version for every path of either version. Non-trivial = some S is non-ASCII or has an entry that textually extends it without being under it; distinct by case hash / by construction for enumerated pairs; plus one fixed scale probe (listing and restoring a subtree of a 10 015-hunk version); since round 7 half of the interrupted cases first turn a directory with content into a file or a symlink, names may end in white space (space, tab, NBSP, ideographic space, newline) and every other subtree selection is built by parsing its text as the command line does",
+        rule: "enumeration: is_prefix_of vs byte-wise whole-component containment on every ordered pair of the depth<=3 universe over {a, a., a-, 'a b', b, é, .x, ~, éa, 日, ab}; generated: (options, tree with multi-byte and mutually-extending sibling names) backed up, then for S = every entry plus generated absent paths: listing(S) == full listing filtered by containment (entry-for-entry), and for S = every directory: restore(S) creates exactly the paths under S (+ bare ancestors) with attributes identical to the full restore; in 40% of cases a second backup after generated edits is interrupted and the listing relation is also checked on the stitched version for every path of either version. Non-trivial = some S is non-ASCII or has an entry that textually extends it without being under it; distinct by case hash / by construction for enumerated pairs; plus one fixed scale probe (listing and restoring a subtree of a 10 015-hunk version); since round 7 half of the interrupted cases first turn a directory with content into a file or a symlink, names may end in white space (space, tab, NBSP, ideographic space, newline) and every other subtree selection is built by parsing its text as the command line does; since round 9 every subtree is listed once more through ONE StoredTree value that had been listed before",
         assumptions: &["containment oracle is a byte-slice comparison independent of src/apath.rs"],
         cases: |t| t.pick(1500, 60_000),
         strategy,
